@@ -24,8 +24,8 @@ Require Import Verif.Cmds.Walk.
 Local Open Scope N_scope.
 
 Record guards := {
-  g_ints_target : bool;     (* IntsBuilder handlers resolve app AND endpoint nil-safely and skip undefined targets *)
-  g_ints_walk_once : bool;  (* WalkPassthrough expands each pass-through endpoint once *)
+  g_ints_target : bool;     (* IntsBuilder handlers and ints_view.go read application / endpoint attributes through nil-safe getters *)
+  g_ints_walk_once : bool;  (* WalkPassthrough does not re-enter an endpoint that is being expanded further up the chain *)
   g_dm_path : bool;         (* DrawRelation tests the path length before Path[1] *)
   g_swagger_rest : bool;    (* populateEndpoint tests the number of words before [1] *)
   g_db_path : bool;         (* findTableDepth does not index Path directly *)
@@ -74,7 +74,7 @@ Definition mseq_expand (m:module) (n:N*N) : outcome * list (@edge (N*N) (N*N)) :
   end.
 Definition mseq_onerr (g:guards) : outcome := if g_mseq_err g then Err else Panic SMSeqErr.
 Definition mseq (g:guards) (m:module) (fuel:nat) (a e:N) : outcome :=
-  fst (walk pair_eqb (mseq_expand m) (mseq_onerr g) true fuel (a, e) []).
+  fst (walk pair_eqb (mseq_expand m) (mseq_onerr g) true true fuel (a, e) []).
 
 (* ---------------- mermaid integration diagram: diagram -i [-a app] ---------------- *)
 (* node = None (the loop over all applications of GenerateFullIntegrationDiagram) or Some app;
@@ -94,26 +94,27 @@ Definition mint (g:guards) (m:module) (fuel:nat) (start:option N) : outcome :=
   match start with
   | Some x => match find_app m x with
               | None => Err
-              | Some _ => fst (walk pair_eqb (mint_expand g m) Err true fuel (Some x) [])
+              | Some _ => fst (walk pair_eqb (mint_expand g m) Err true true fuel (Some x) [])
               end
-  | None => fst (walk pair_eqb (mint_expand g m) Err true fuel None [])
+  | None => fst (walk pair_eqb (mint_expand g m) Err true true fuel None [])
   end.
 
 (* ---------------- integrations: ints -j project [-e excl] ---------------- *)
 (* one builder per project endpoint (view). node = None (the loop over the seed applications' endpoints)
-   or Some (app, endpoint) = WalkPassthrough(app, endpoint); key = the walked pass-through endpoint *)
+   or Some (app, endpoint) = WalkPassthrough(app, endpoint); key = the pass-through endpoint being expanded
+   (b.walking: recorded on entry, deleted on return - `persist` = false) *)
 Definition ints_edge (g:guards) (m:module) (excl pass:list N) (c:call) : @edge (option (N*N)) (N*N) :=
+  (* AddCall; FinalApps += target; WalkPassthrough(target, endpoint) *)
   let next := if memN (c_app c) pass then Some ((c_app c, c_ep c), Some (c_app c, c_ep c)) else None in
   if memN (c_app c) excl then (Ok, None)
   else match find_app m (c_app c) with
-       | None => if g_ints_target g then (Ok, None) else (Panic SIntsTarget, None)
+       | None =>
+           (* guarded: GetApps()[t].GetAttrs() / .GetEndpoints()[e].GetAttrs() on nil are empty: not human, not
+              hidden, the call to the undefined application is drawn. unguarded: `.Endpoints` on the nil app *)
+           if g_ints_target g then (Ok, next) else (Panic SIntsTarget, None)
        | Some ta =>
-           if g_ints_target g then
-             match find_ep ta (c_ep c) with
-             | None => (Ok, None)                        (* undefined endpoint: the call is left out *)
-             | Some _ => if a_human ta then (Ok, None) else (Ok, next)
-             end
-           else if a_human ta then (Ok, None) else (Ok, next)
+           (* an undefined endpoint of a defined application is a nil map entry in both shapes: drawn *)
+           if a_human ta then (Ok, None) else (Ok, next)
        end.
 Definition ints_ep_edges g m excl pass (a:app) : list (@edge (option (N*N)) (N*N)) :=
   flat_map (fun e => map (ints_edge g m excl pass) (e_calls e)) (a_eps a).
@@ -135,7 +136,7 @@ Definition ints_expand g m excl pass (view:endpoint) (n:option (N*N)) : outcome 
   end.
 Definition ints_view (g:guards) (m:module) (fuel:nat) (cmd_excl:list N) (view:endpoint) : outcome :=
   let excl := cmd_excl ++ e_excl view in
-  fst (walk pair_eqb (ints_expand g m excl (e_pass view) view) Err (g_ints_walk_once g) fuel None []).
+  fst (walk pair_eqb (ints_expand g m excl (e_pass view) view) Err (g_ints_walk_once g) false fuel None []).
 Fixpoint first_bad (os:list outcome) : outcome :=
   match os with [] => Ok | Ok :: r => first_bad r | o :: _ => o end.
 Definition ints (g:guards) (m:module) (fuel:nat) (project:N) (cmd_excl:list N) : outcome :=
